@@ -21,7 +21,7 @@ import vlib
 PROP_FILE = "Props/Properties_C04.v"
 LEVEL = "proof"
 WRAPS = ("select", "read", "recv", "write", "malloc", "calloc", "realloc", "open", "creat", "fopen", "opendir",
-         "mkdir", "rmdir", "unlink", "rename", "stat", "utime")
+         "mkdir", "rmdir", "unlink", "rename", "stat", "fstat", "utime")
 DEFAULT_WAIT = 20000
 SLICE = 5000
 PEEK_WAIT = 100
@@ -1276,7 +1276,16 @@ def check(ctx):
         "C04_no_div_zero_partial assumes fpu_ok: the doubles of rfbScaledCorrection map a rectangle inside the source screen to a "
         "corner inside the target screen and non-negative extents (C17 studies that arithmetic)",
         "updates are compared only when exactly one non-empty (or zero-width) rectangle is requested; other request sets are left "
-        "to the region/update models (C11, C02)"]
+        "to the region/update models (C11, C02); C04_no_div_zero itself covers every requested rectangle (update_all)",
+        "fpu_ok is proved for the exact-arithmetic correction (fpu_ok_corr_q); for the doubles the driver asserts it on every "
+        "call (FPU-ASSERT line = correspondence mismatch)",
+        "NOT PROVED, TESTED ONLY (sanitizers + oracle on generated inputs): memory safety / use-after-free of the C text; the "
+        "shift and maxima arithmetic of SetPixelFormat and the translation tables; bounds on time spent in writes beyond the "
+        "per-write slice (F8b); isolation between clients / several fuzzed clients at once (only the witness client); WebSocket "
+        "framing and HTTP; registered protocol extensions (TightVNC file transfer: cfg ext=1/2); 16-bpp server formats; the fd "
+        "quota of the listener; UltraVNC file transfer after its reads (filesystem, replies); zlib internals (inflate is an "
+        "oracle); the encoders while an update is sent (the model stops at the per-rectangle count/size arithmetic; Tight count "
+        "not modelled); uninitialised bytes in replies (two-run probe)"]
 
     def run_one(lines, model=True):
         (r1, co, ce), (r2, mo, me) = run_pair(ctx, [lines], cexe, mexe, model)
